@@ -20,6 +20,7 @@ HEAD = "from inline_snapshot import snapshot, Is\n\n"
 
 # name -> (test body, names of symbolic ints used)
 TEMPLATES = {
+    "abort_from_other_directory": ("    assert x0 == snapshot(c0)\n    assert x1 == snapshot(c1)\n    assert x2 == snapshot(c2)\n", ["x0", "c0", "x1", "c1", "x2", "c2"]),
     "abort_then_later": ("    assert x0 == snapshot(c0)\n    assert x1 <= snapshot(c1)\n    assert x2 in snapshot([c2])\n", ["x0", "c0", "x1", "c1", "x2", "c2"]),
     "exception_between": ("    assert x0 == snapshot(c0)\n    raise ValueError('bug in test')\n    assert x1 == snapshot(c1)\n", ["x0", "c0", "x1", "c1"]),
     "nested_align_longer": ("    assert [x0, x1, x2] == snapshot([snapshot(c0), c1])\n", ["x0", "x1", "x2", "c0", "c1"]),
@@ -52,9 +53,22 @@ TEMPLATES = {
     "changing_argument": ("    for i in [x0, x1]:\n        assert i == snapshot(i)\n", ["x0", "x1"]),
     "eq_raises": ("    assert Boom() == snapshot(c0)\n", ["c0"]),
     "getitem_nested_two_levels": ("    s = snapshot({1: {2: c0}})\n    assert s[1][2] == x0\n    assert s[3][4] == x1\n", ["x0", "x1", "c0"]),
+    "in_compare_raises": ("    s = snapshot([c0, c1])\n    try:\n        assert NoInts() in s\n    except TypeError:\n        pass\n    assert x0 in s\n", ["x0", "c0", "c1"]),
+    "in_compare_raises_only": ("    try:\n        assert NoInts() in snapshot([c0])\n    except TypeError:\n        pass\n    assert x0 == snapshot(c1)\n", ["x0", "c0", "c1"]),
+    "unused_dataclass_variable": ("    s = snapshot(pvar)\n    assert x0 == snapshot(c0)\n    t = snapshot([pvar, c1])\n", ["x0", "c0", "c1"]),
     "two_tests_share_failing": ("    assert x0 == s_mod\n", ["x0", "c0"]),
 }
 EXTRA_HEAD = {"two_tests_share_failing": "s_mod = snapshot([c0])\n\n\ndef test_0():\n    assert [x0, x0] == s_mod\n\n"}
+
+
+class NoInts:
+    def __eq__(self, other):
+        if isinstance(other, int):
+            raise TypeError("no ints")
+        return isinstance(other, NoInts)
+
+    def __repr__(self):
+        return "NoInts()"
 
 
 class Boom:
@@ -84,6 +98,8 @@ def short_report_case(tname, vals):
 def finish_case(tname, fbits, vals):
     ns = dict(SUPPORT_NS)
     ns["Boom"] = Boom
+    ns["NoInts"] = NoInts
+    ns["pvar"] = SUPPORT_NS["P"](a=1)
     ns["Is"] = Is
     ns.update(vals)
     world.reset(ns)
@@ -92,7 +108,7 @@ def finish_case(tname, fbits, vals):
     flags = [n for n, b in zip(["create", "fix", "trim", "update"], fbits) if b]
     W.no_canon = True  # the rewritten text is only parsed here, never evaluated: no fork on the rendered token
     try:
-        r = world.plugin_session(t, cli=",".join(flags) if flags else "report")
+        r = world.plugin_session(t, cli=",".join(flags) if flags else "report", cwd_outside=tname.endswith("_from_other_directory"))
     finally:
         W.no_canon = False
     err = r.finish_error
